@@ -4281,7 +4281,7 @@ class UUID(TraitType):
         try:
             # Construct the UUID from a string
             return uuid.UUID(value)
-        except ValueError:
+        except (ValueError, TypeError, AttributeError):
             msg = ("The '{}' trait of '{}' expects an RFC 4122-compatible "
                    "UUID value, but '{}' was given")
             raise TraitError(msg.format(name, type(object).__name__, value))
